@@ -1001,6 +1001,31 @@ def check_siblings(prog, rep):
             rep.info("R10-siblings", fb.qualname, "differs textually from %s; it is checked against the same template instead" % fa.qualname)
 
 
+def check_args_purity(prog, rep, cname):
+    """R9-parents (aliases): no in-place update reaches the caller's parental matrix, cross configuration or per-cross counts through a view or an alias"""
+    from sa.purity import Purity, may_be_array
+    K = prog.get_class(cname, "pybrops.breed.prot.mate." + cname)
+    f = prog.own_method(K, "mate")
+    construct = f.qualname + "#aliases"
+    bad = False
+    try:
+        pu = Purity(prog, f)
+    except RecursionError:
+        rep.unrec("R9-parents", construct, "alias walk did not terminate")
+        return
+    for e in pu.events:
+        hit = sorted(r for r in e.roots if (r[0] == "param" and r[1] in ("pgmat", "xconfig", "nmating", "nprogeny")) or (r[0] == "pattr" and r[1].startswith("pgmat.")))
+        if not hit:
+            continue
+        if isinstance(e.node, ast.AugAssign) and isinstance(e.node.target, ast.Name) and not any(r[0] == "param" and may_be_array(f, r[1]) for r in hit):
+            continue
+        rep.violate("R9-parents", f.qualname, "`%s` updates in place %s: the caller's array is changed by the call (the next call with the same argument sees other "
+                    "counts / genotypes)" % (e.what, " / ".join("the argument %s" % r[1] for r in hit)), where(f, e.node), "inputs are read-only (work on a copy)", e.what)
+        bad = True
+    if not bad:
+        rep.ok("R9-parents", construct, "no in-place update reaches pgmat / xconfig / nmating / nprogeny through an alias")
+
+
 def run_meiosis_rules(prog, rep):
     for modname, names in ((UTIL, ("mat_meiosis", "mat_dh", "mat_mate")), (CORE, ("dense_meiosis", "dense_dh", "dense_cross"))):
         f = prog.func(modname, names[0])
@@ -1017,10 +1042,11 @@ def run(prog, rep, tier):
                        "no rule depends on a value.")
     rep.not_decided = ["numeric allele value ranges (int8 codes are copied, never computed)", "which uniform numbers are drawn (C02/C08)"]
     for r, n in (("R1-provenance", 2), ("R2-tiling", 2), ("R3-crossover", 2), ("R4-stacking", 4), ("R5-pedigree", 7), ("R6-alignment", 14),
-                 ("R7-names", 7), ("R8-metadata", 7), ("R9-parents", 9)):
+                 ("R7-names", 7), ("R8-metadata", 7), ("R9-parents", 16)):
         rep.floor(r, n)
     run_meiosis_rules(prog, rep)
     for c in PROTOCOLS:
         check_protocol(prog, rep, c)
+        check_args_purity(prog, rep, c)
         check_meiosis_calls(prog, rep, c)
     check_siblings(prog, rep)
